@@ -110,7 +110,7 @@ impl<Wr: Write> XmlSerializer<Wr> {
 
     #[inline(always)]
     fn qual_name(&mut self, name: &QualName) -> io::Result<()> {
-        self.find_or_insert_ns(name);
+        self.find_or_insert_elem_ns(name);
         write_qual_name(&mut self.writer, name)
     }
 
@@ -129,6 +129,30 @@ impl<Wr: Write> XmlSerializer<Wr> {
             }
         }
         found
+    }
+
+    /// Is a non-empty default namespace in scope?
+    fn default_ns_in_scope(&self) -> bool {
+        for stack in self.namespace_stack.0.iter().rev() {
+            if let Some(default) = stack.get(&None) {
+                return matches!(default, Some(ns) if !ns.is_empty());
+            }
+        }
+        false
+    }
+
+    /// Like `find_or_insert_ns`, but an element without prefix and namespace
+    /// needs `xmlns=""` when an ancestor declared a default namespace.
+    fn find_or_insert_elem_ns(&mut self, name: &QualName) {
+        if name.prefix.is_none() && name.ns.is_empty() {
+            if self.default_ns_in_scope() {
+                if let Some(last_ns) = self.namespace_stack.0.last_mut() {
+                    last_ns.insert(name);
+                }
+            }
+        } else {
+            self.find_or_insert_ns(name);
+        }
     }
 
     fn find_or_insert_ns(&mut self, name: &QualName) {
@@ -152,7 +176,7 @@ impl<Wr: Write> Serializer for XmlSerializer<Wr> {
         // Register the bindings needed by the attributes before the declarations
         // are written, so that an attribute's prefix is declared on this tag too.
         let attrs: Vec<AttrRef<'a>> = attrs.collect();
-        self.find_or_insert_ns(&name);
+        self.find_or_insert_elem_ns(&name);
         for (attr_name, _) in &attrs {
             self.find_or_insert_ns(attr_name);
         }
